@@ -208,7 +208,9 @@ public:
             Date st = step.start_date();
             Date end = step.end_date();
             Date test(st.year(), month, day);
-            if ((test >= st && test <= end))
+            Date test_end_year(end.year(), month, day);
+            if ((test >= st && test <= end)
+                || (test_end_year >= st && test_end_year <= end))
                 schedule.push_back(true);
             else
                 schedule.push_back(false);
@@ -226,7 +228,8 @@ public:
         std::vector<bool> schedule;
         schedule.reserve(num_steps);
         for (Step step : steps) {
-            if (step.end_date().is_last_day_of_year())
+            if (step.start_date().year() != step.end_date().year()
+                || step.end_date().is_last_day_of_year())
                 schedule.push_back(true);
             else
                 schedule.push_back(false);
@@ -282,7 +285,8 @@ public:
         for (Step step : steps) {
             Date st = step.start_date();
             Date end = step.end_date();
-            if (st.month() != end.month() || end.is_last_day_of_month())
+            if (st.month() != end.month() || st.year() != end.year()
+                || end.is_last_day_of_month())
                 schedule.push_back(true);
             else
                 schedule.push_back(false);
